@@ -23,7 +23,7 @@ async fn run(name: &str) -> Result<(), String> {
     std::fs::create_dir_all(root.join("test")).unwrap();
     std::fs::create_dir_all(root.join("tests")).unwrap();
     match name {
-        // C11 (BOUNDED: 4 configurations x all events of 1..2 paths over 7 paths x 3 file types): the default path filterer's verdict is the documented rule
+        // C11 (BOUNDED: 6 configurations x all events of 1..2 paths over 7 paths x 3 file types): the default path filterer's verdict is the documented rule
         "globset_rule_bounded" => {
             use watchexec_filterer_globset::GlobsetFilterer;
             // (name, is matched by an ignore pattern, matches a filter pattern, extension)
@@ -32,15 +32,16 @@ async fn run(name: &str) -> Result<(), String> {
             let types = [Some(FileType::File), Some(FileType::Dir), None];
             let watched = root.join("watched.cfg");
             let mut checked = 0usize;
-            for (with_ignores, with_filters, with_exts) in [(false, false, false), (true, false, false), (true, true, false), (true, true, true)] {
-                let ignores: Vec<(String, Option<PathBuf>)> = if with_ignores { vec![("*.toml".into(), None)] } else { vec![] };
+            for (with_ignores, with_filters, with_exts, with_negation) in [(false, false, false, false), (true, false, false, false), (true, true, false, false), (true, true, true, false), (true, false, false, true), (true, true, true, true)] {
+                // with_negation: a later negated ignore pattern re-includes skip.rs.toml
+                let ignores: Vec<(String, Option<PathBuf>)> = if with_ignores { if with_negation { vec![("*.toml".into(), None), ("!skip.rs.toml".into(), None)] } else { vec![("*.toml".into(), None)] } } else { vec![] };
                 let filters: Vec<(String, Option<PathBuf>)> = if with_filters { vec![("*.rs".into(), None)] } else { vec![] };
                 let exts: Vec<std::ffi::OsString> = if with_exts { vec!["md".into()] } else { vec![] };
                 let f = GlobsetFilterer::new(&root, filters, ignores, vec![watched.clone()], vec![], exts).await.map_err(|e| e.to_string())?;
                 // per path: Some(true) passes, Some(false) rejected by rule
                 let path_ok = |i: usize, t: Option<FileType>| -> bool {
-                    let (_, ign, fil, ext) = names[i];
-                    if with_ignores && ign { return false; }
+                    let (name, ign, fil, ext) = names[i];
+                    if with_ignores && ign && !(with_negation && name == "skip.rs.toml") { return false; }
                     if !with_filters && !with_exts { return true; }
                     (with_filters && fil) || (with_exts && ext == "md" && t != Some(FileType::Dir))
                 };
@@ -241,6 +242,21 @@ async fn run(name: &str) -> Result<(), String> {
             }
             println!("INFO origins_markers_bounded: {cases} placements");
             Ok(())
+        }
+        // C14: a negation in a directory's own ignore file re-includes a DIRECT child directory that a file further up ignores: the child must be
+        // searched (its ignore file found)
+        "negation_reincludes_a_direct_child" => {
+            let w = |rel: &str, content: &str| { let p = root.join(rel); std::fs::create_dir_all(p.parent().unwrap()).unwrap(); std::fs::write(p, content).unwrap(); };
+            w(".gitignore", "out\n");
+            w("pkg/.gitignore", "!out\n");
+            w("pkg/out/.gitignore", "x\n");
+            w("lib/out/.gitignore", "y\n");      // control: ignored by the origin's file, not re-included: must not be found
+            let (files, errors) = ignore_files::from_origin(root.as_path()).await;
+            if !errors.is_empty() { return Err(format!("discovery reported errors: {errors:?}")); }
+            let got: Vec<PathBuf> = files.iter().map(|f| f.path.strip_prefix(&root).unwrap_or(&f.path).to_owned()).collect();
+            let has = |p: &str| got.iter().any(|g| g == Path::new(p));
+            if has("lib/out/.gitignore") { return Err(format!("lib/out is ignored by the origin's .gitignore and not re-included, yet its ignore file was returned: {got:?}")); }
+            if has("pkg/out/.gitignore") { Ok(()) } else { Err(format!("origin/.gitignore `out`, pkg/.gitignore `!out`: pkg/out is re-included by the nearer file, but discovery did not search it: pkg/out/.gitignore is missing from {got:?}")) }
         }
         // test/.gitignore re-includes *.rs; that negation must not leak into the sibling tests/ whose name has test as a textual prefix
         "prefix_sibling_negation" => {
